@@ -71,6 +71,7 @@ class Canary:
 def resolve(schema: Any, doc: dict, limit: int = 20) -> dict:
     """Follow $ref / single-member allOf|oneOf|anyOf wrappers of a reference to the schema itself."""
     cur = schema
+    nullable = False
     for _ in range(limit):
         if not isinstance(cur, dict):
             return {}
@@ -78,7 +79,13 @@ def resolve(schema: Any, doc: dict, limit: int = 20) -> dict:
             name = cur["$ref"].rsplit("/", 1)[1]
             cur = ((doc.get("components") or {}).get("schemas") or {}).get(name, {})
             continue
-        return cur
+        wrapped = [k for k in ("allOf", "oneOf", "anyOf") if cur.get(k)]
+        if len(wrapped) == 1 and len(cur[wrapped[0]]) == 1 and not cur.get("properties") and "type" not in cur and "enum" not in cur:
+            # a one-element wrapper (description / nullable around a reference) IS the wrapped schema
+            nullable = nullable or bool(cur.get("nullable"))
+            cur = cur[wrapped[0]][0]
+            continue
+        return dict(cur, nullable=True) if nullable and not cur.get("nullable") else cur
     return {}
 
 
@@ -114,8 +121,6 @@ def classify(schema: dict, doc: dict) -> str:
     if len(ts) > 1:
         return "union"
     if s.get("allOf"):
-        if len(s["allOf"]) == 1 and not s.get("properties"):
-            return classify(s["allOf"][0], doc)
         return "model"
     t = ts[0] if ts else None
     if t == "object" or (t is None and s.get("properties")):
@@ -134,9 +139,7 @@ def classify(schema: dict, doc: dict) -> str:
 
 def model_properties(schema: dict, doc: dict, _seen: tuple = ()) -> tuple[dict[str, dict], set[str], Any]:
     """(properties, required, additionalProperties) of an object / allOf schema, parents first."""
-    s = resolve(schema, doc)
-    if len(s.get("allOf") or []) == 1 and not s.get("properties") and "$ref" in s["allOf"][0]:
-        return model_properties(s["allOf"][0], doc, _seen)  # a wrapper around a reference IS the referenced model
+    s = resolve(schema, doc)  # (a one-element wrapper around a reference resolves to the referenced model)
     props: dict[str, dict] = {}
     req: set[str] = set()
     addl: Any = s.get("additionalProperties")
@@ -429,11 +432,27 @@ def py_value(schema: dict, J: Any, doc: dict, models: Any, hint: Any = None, fil
     s = resolve(schema, doc)
     k = classify(schema, doc)
     name = ref_name(schema)
-    if name is None and s is not schema and isinstance(schema, dict):
-        # single-member wrapper around a reference
+    cur = schema
+    for _ in range(6):  # through one-element wrappers
+        if name is not None or not isinstance(cur, dict):
+            break
+        nxt = None
         for key in ("allOf", "oneOf", "anyOf"):
-            if len(schema.get(key) or []) == 1:
-                name = ref_name(schema[key][0])
+            if len(cur.get(key) or []) == 1 and not cur.get("properties") and "type" not in cur:
+                nxt = cur[key][0]
+        if nxt is None:
+            break
+        cur = nxt
+        name = ref_name(cur)
+    if name is not None:
+        # a reference to a component that is itself an alias of another component
+        tgt = ((doc.get("components") or {}).get("schemas") or {}).get(name)
+        hops = 0
+        while isinstance(tgt, dict) and hops < 6 and not hasattr(models, name):
+            nm2 = ref_name(tgt)
+            if nm2 is None:
+                break
+            name, tgt, hops = nm2, ((doc.get("components") or {}).get("schemas") or {}).get(nm2), hops + 1
     if k == "model":
         cls = getattr(models, name, None) if name else None
         if cls is None:
